@@ -101,7 +101,7 @@ def main():
         ],
         "checks": checks,
         "not_applicable": [{"property_id": k, "reason": v} for k, v in sorted(NA.items())],
-        "notes": "Family: static analysis only. Every claimed check decides structural clauses (necessary conditions visible in the shape of the resolved program) and says so; for C03 and C05 only the mechanisms the properties are anchored in are decided (the fixpoint relation / the parser's grouping are not). Genuine defects found: 18 fix: commits in /repo (17 defects, one fix reworked), 8 recorded in known_findings.json (7 x stack exhaustion by recursion, 1 x stale child-line memo).",
+        "notes": "Family: static analysis only. Every claimed check decides structural clauses (necessary conditions visible in the shape of the resolved program) and says so; for C03 and C05 only the mechanisms the properties are anchored in are decided (the fixpoint relation / the parser's grouping are not). Genuine defects found: 19 fix: commits in /repo (18 defects, one fix reworked), 9 entries in known_findings.json (7 x stack exhaustion by recursion, the stale child-line memo under C11 and C03).",
     }
     json.dump(m, open(os.path.join(VERIF, "MANIFEST.json"), "w"), indent=1)
     print("wrote MANIFEST.json with %d checks, %d not applicable" % (len(checks), len(NA)))
